@@ -15,7 +15,7 @@ import (
 // Both go through Mapper.Read/Write only; no machine cycle elapses between a write and the reads.
 
 // machine states the sweeps start from
-var busStates = []string{"power-on", "lcd-off", "lcd-off+apu-off", "after-busy-rom", "mbc1-ram-enabled", "ch3-playing", "dma-in-flight", "dacs-on-idle", "dac3-on-fresh", "lcd-off+all-requested", "keys-held", "mbc2-ram-enabled", "mbc3-ram-enabled", "mbc5-ram-enabled"}
+var busStates = []string{"power-on", "lcd-off", "lcd-off+apu-off", "after-busy-rom", "mbc1-ram-enabled", "ch3-playing", "dma-in-flight", "dacs-on-idle", "dac3-on-fresh", "lcd-off+all-requested", "keys-held", "mbc2-ram-enabled", "mbc3-ram-enabled", "mbc5-ram-enabled", "lcd-on-registers-set"}
 
 func busMachine(state string, repo string) (*machine.M, ref.CartKind) {
 	kind := ref.KNone
@@ -53,7 +53,16 @@ func busMachine(state string, repo string) (*machine.M, ref.CartKind) {
 	default:
 		m = machine.New(machine.ROMOnly(), machine.Opts{})
 	}
-	if state != "power-on" {
+	if state == "lcd-on-registers-set" {
+		// LCD on in the middle of line 10 with every LCD register holding a value of its own (none at its power-on
+		// value): what a write to one of them does to the others shows only when the others are not already 00
+		for _, w := range [][2]uint16{{0xff45, 0x40}, {0xff42, 0x11}, {0xff43, 0x22}, {0xff4a, 0x33}, {0xff4b, 0x44}, {0xff47, 0xe4}, {0xff48, 0xd2}, {0xff49, 0x39}, {0xff41, 0x48}} {
+			m.Map.Write(w[0], uint8(w[1]))
+		}
+		for i := 0; i < 10*114+30; i++ {
+			m.Hardware()
+		}
+	} else if state != "power-on" {
 		// leave mode 2 first (mode 2 lasts 20 cycles), then switch the LCD off
 		for m.Map.Read(0xff41)&3 == 2 {
 			m.Hardware()
@@ -473,14 +482,14 @@ func c07Region(w uint16) string {
 func init() {
 	register("C06", "model_checking", func(c *Ctx) {
 		if c.R != nil {
-			c.R.Rule = "through Mapper.Read/Write only, from 10 machine states: (plain) three complete write sweeps (ascending, descending, strided; distinct patterns) over WRAM+echo, HRAM, IE and, LCD off, VRAM and OAM, each followed by a complete read-back of all plain memory, plus all 256 values at region-boundary addresses with both mirror directions; (io) every address FF00-FF7F x all 256 values: read-back = (v & writable) | always-one | read-only bits; DIV/LY never take the value; unmapped read FF; (unusable) FEA0-FEFF read 00; a case = one (state, part)"
+			c.R.Rule = "through Mapper.Read/Write only, from 13 machine states: (plain) three complete write sweeps (ascending, descending, strided; distinct patterns) over WRAM+echo, HRAM, IE and, LCD off, VRAM and OAM, each followed by a complete read-back of all plain memory, plus all 256 values at region-boundary addresses with both mirror directions; (io) every address FF00-FF7F x all 256 values: read-back = (v & writable) | always-one | read-only bits; DIV/LY never take the value; unmapped read FF; (unusable) FEA0-FEFF read 00; a case = one (state, part)"
 			c.R.Assumptions = []string{"NR52 and JOYP's input nibble are owned by C18/C19/C22", "TIMA/TMA read-back is judged with the timer stopped", "LY with the LCD on is observed one machine cycle after the write (what a guest can see)"}
 		}
-		explore.Product(c.R, "read-back", explore.PartOpt{Bound: "no time elapses between write and read", Domain: "10 machine states x {plain, io, unusable}"},
+		explore.Product(c.R, "read-back", explore.PartOpt{Bound: "no time elapses between write and read", Domain: "13 machine states x {plain, io, unusable}"},
 			func(yield func(c06Case) bool) {
 				for _, s := range busStates {
-					if s == "keys-held" {
-						continue // JOYP's input nibble under held keys is C22's; the state exists for C07
+					if s == "keys-held" || s == "lcd-on-registers-set" {
+						continue // JOYP's input nibble under held keys is C22's; the states exist for C07
 					}
 					for _, p := range []string{"plain", "io", "unusable"} {
 						if !yield(c06Case{s, p}) {
@@ -496,7 +505,7 @@ func init() {
 			c.R.Assumptions = []string{"quick: every address FE00-FFFF, every 0x100-aligned address +-1 elsewhere and every region boundary +-1; thorough: all 65,536 addresses"}
 		}
 		vals := []uint8{0x00, 0xff, 0x55, 0xaa, 0x01, 0x80, 0x0a, 0xe5}
-		explore.Product(c.R, "write-effect-sets", explore.PartOpt{Bound: "single write, full-space diff", Domain: "14 machine states, four of them with a cartridge controller and its RAM enabled (MBC1, MBC2, MBC3, MBC5) (FF10-FF3F: every write from the state itself); plus FF10-FF3F x 8 values each written from a busy APU (all channels playing, length counters at 1, second half of a frame-sequencer period)"},
+		explore.Product(c.R, "write-effect-sets", explore.PartOpt{Bound: "single write, full-space diff", Domain: "15 machine states (one with the LCD on mid-frame and every LCD register at a value of its own), four of them with a cartridge controller and its RAM enabled (MBC1, MBC2, MBC3, MBC5) (FF10-FF3F: every write from the state itself); plus FF10-FF3F x 8 values each written from a busy APU (all channels playing, length counters at 1, second half of a frame-sequencer period)"},
 			func(yield func(c07Case) bool) {
 				// sound registers from a busy APU, every write from the state itself
 				for lo := 0xff10; lo < 0xff40; lo += 4 {
@@ -509,7 +518,7 @@ func init() {
 					for lo := 0xfe00; lo < 0x10000; lo += 0x10 {
 						// the sound registers and wave RAM: every write from the state itself (a sweep over NR52 or NR30
 						// would otherwise destroy the state for the addresses after it)
-						fresh := (lo >= 0xff10 && lo < 0xff40 && s != "after-busy-rom") || ((s == "lcd-off+all-requested" || s == "keys-held") && lo >= 0xff00 && lo < 0xff80)
+						fresh := (lo >= 0xff10 && lo < 0xff40 && s != "after-busy-rom") || ((s == "lcd-off+all-requested" || s == "keys-held" || s == "lcd-on-registers-set") && lo >= 0xff00 && lo < 0xff80)
 						if !yield(c07Case{State: s, Lo: lo, Hi: lo + 0x0f, Vals: vals, Fresh: fresh}) {
 							return
 						}
